@@ -19,7 +19,7 @@ RULE = ("(a) traced single calls: record sizes (message + newline, so >= 2 bytes
         "file with path template / devtty / devnull; from the syscall log: the log descriptor is opened with O_APPEND and without "
         "O_TRUNC, exactly one data-transferring call is made on it whose size is the whole record, no ftruncate / positional write, and the "
         "file afterwards is old content + record. (b) stress: 2..16 concurrent writers (processes x threads) append uniquely "
-        "numbered records of 1..70000 bytes to one file; the file must be a permutation of whole records, none lost. (c) devtty output with a controlling terminal "
+        "numbered records of 1..70000 bytes to one file (some rounds with a 150..400 us interval timer in every writer, handler without SA_RESTART); the file must be a permutation of whole records, none lost. (c) devtty output with a controlling terminal "
         "that is read only after 0.8..1.5 s: 60..2000 records must all arrive whole, once, in order. non-trivial "
         "(a) = record > 4096 bytes or pre-existing content without final newline or file absent; distinct by (size, state, output)")
 
@@ -177,7 +177,7 @@ def worker(args):
 
 
 # ------------------------------------------------------------------ stress
-def stress(ctx, build, rounds, nproc, nthreads, ncalls, seed):
+def stress(ctx, build, rounds, nproc, nthreads, ncalls, seed, timer_us=0):
     """nproc driver processes x nthreads threads x ncalls records each, all appending to one file."""
     shared = os.path.join(ctx.run.out, "shared")
     os.makedirs(shared, exist_ok=True)
@@ -204,7 +204,8 @@ def stress(ctx, build, rounds, nproc, nthreads, ncalls, seed):
                 oarg = path.encode() if r % 2 == 0 else path.encode().replace(b"stress.log", b"stress%{snoopy_literal:.}lo%{snoopy_literal:g}")
                 ini = gen.render_ini([(b"output", b"file:" + oarg), (b"message_format", b"%{cmdline}"),
                                       (b"datasource_message_max_length", b"1048575"), (b"log_message_max_length", b"1048575")])
-                ops = [drv.op("C", ini), drv.op("Z", nthreads, 1)]
+                # (timer_us: every writer process has an interval timer whose handler was installed without SA_RESTART)
+                ops = [drv.op("C", ini)] + ([drv.op("i", timer_us)] if timer_us else []) + [drv.op("Z", nthreads, 1)]
                 for t in range(nthreads):
                     for k in range(ncalls):
                         n = rng.choice([1, 50, 200, 4000, 4096, 5000, 9000, 17000, 70000] if ncalls < 30 else [1, 20, 50, 200, 4097])
@@ -322,10 +323,13 @@ def main():
             if len(ctx.violations) < 3:
                 ctx.violation(f["case"], f["observed"], f["expected"], f["what"])
     # stress
-    plans = [(3, 4, 2, 6), (2, 16, 1, 4), (4, 2, 8, 120)] if ctx.quick else [(10, 4, 4, 10), (10, 16, 1, 10), (6, 8, 2, 12), (4, 2, 8, 20), (20, 2, 8, 300), (10, 1, 16, 300)]
+    # (rounds, processes, threads, calls[, interval timer in microseconds])
+    plans = [(3, 4, 2, 6), (2, 16, 1, 4), (4, 2, 8, 120), (2, 4, 4, 60, 400)] if ctx.quick else \
+            [(10, 4, 4, 10), (10, 16, 1, 10), (6, 8, 2, 12), (4, 2, 8, 20), (20, 2, 8, 300), (10, 1, 16, 300), (8, 4, 4, 100, 400), (8, 8, 2, 100, 150)]
     tot = 0
-    for i, (rounds, nproc, nthreads, ncalls) in enumerate(plans):
-        n, viol = stress(ctx, b, rounds, nproc, nthreads, ncalls, ctx.seed * 17 + i)
+    for i, plan in enumerate(plans):
+        rounds, nproc, nthreads, ncalls = plan[:4]
+        n, viol = stress(ctx, b, rounds, nproc, nthreads, ncalls, ctx.seed * 17 + i, plan[4] if len(plan) > 4 else 0)
         tot += n
         ctx.evaluations += rounds
         ctx.classes["stress-round"] = ctx.classes.get("stress-round", 0) + rounds
